@@ -9,8 +9,10 @@
    Domain restrictions, each with its witness below:
    * [script_ok]: the operation string of an [XChange] event is neither "BEGIN" nor "COMMIT" (that
      is what XChange means: client.go compares Operation with exactly these two strings first);
-   * one-COMMIT rule: scripts without ErrorResponse ([commits_ok]); with an ErrorResponse the rule
-     is false of the unchanged code (finding F3, DESIGN.md section 8, belongs to C02).
+   * one-COMMIT rule: [commits_ok] — between two BEGIN events at most one COMMIT, none before the
+     first BEGIN, none between an ErrorResponse and the next BEGIN.  ErrorResponses themselves are
+     inside the domain (since the repair of findings F2/F3 recovery emits its synthetic COMMIT
+     only while a transaction is open; see also props/C02_client.v).
    The clock oracle of the model stamps the n-th BEGIN with the reading n (strictly increasing
    readings), so the key is [key_of txn n = txn ++ "-" ++ dec n].
 
@@ -43,9 +45,11 @@ Theorem C07_stamp_frame : forall s it s' o,
 Proof. exact cstep_stamp_frame. Qed.
 Print Assumptions C07_stamp_frame.
 
-(* exactly what one iteration forwards *)
+(* exactly what one iteration forwards ([head_state s it] = [s] after the handleProgress call at
+   the loop head: the same except that [overall] has absorbed the waiting progress values; only
+   the position of recovery's synthetic COMMIT can depend on it) *)
 Theorem C07_forwarded_exactly : forall s it,
-  couts (snd (cstep s it)) = if stopped s || i_pclosed it then [] else ev_couts s (i_ev it).
+  couts (snd (cstep s it)) = if stopped s || i_pclosed it then [] else ev_couts (head_state s it) (i_ev it).
 Proof. exact cstep_couts. Qed.
 Print Assumptions C07_forwarded_exactly.
 
@@ -106,8 +110,10 @@ Proof. exact crun_scope. Qed.
 Print Assumptions C07_key_scope_monitor.
 
 (* ---------------- at most one COMMIT per key ---------------- *)
-(* [commits_ok true evs]: no ErrorResponse, and between two BEGIN events (and before the first)
-   at most one COMMIT — none before the first BEGIN *)
+(* [commits_ok true evs]: between two BEGIN events (and before the first) at most one COMMIT —
+   none before the first BEGIN —, and no COMMIT between an ErrorResponse and the next BEGIN (the
+   ErrorResponse gives the open transaction, if any, its one COMMIT).  ErrorResponses are allowed
+   anywhere and in any number. *)
 Theorem C07_one_commit : forall first its,
   script_ok its = true -> commits_ok true (map i_ev its) = true ->
   NoDup (commit_keys (snd (crun first its))).
@@ -117,20 +123,40 @@ Print Assumptions C07_one_commit.
 Definition c07_first : cev := EKeepalive 100 false false.
 Definition c07_it (e : cev) : citer := mkIter false [] false e [] false.
 
-(* outside the domain: BEGIN, change, COMMIT, ErrorResponse — recovery emits a second COMMIT
-   with the key of the transaction that is already committed (finding F3) *)
+(* regression of finding F3: BEGIN, change, COMMIT, ErrorResponse is inside the domain and now
+   forwards ONE COMMIT for the key (before the repair recovery emitted a second one) *)
 Definition c07_f3 : list citer :=
   [ c07_it (EXLog 200 (XBegin "7")); c07_it (EXLog 300 (XChange "INSERT"));
     c07_it (EXLog 500 (XCommit "7")); c07_it (EErrorResponse 900) ].
 
-Theorem C07_one_commit_error_response_refuted :
-  script_ok c07_f3 = true /\
-  commit_keys (snd (crun c07_first c07_f3)) = ["7-0"; "7-0"]%string /\
-  ~ NoDup (commit_keys (snd (crun c07_first c07_f3))).
-Proof.
-  vm_compute. repeat split. intros H. inversion H as [|? ? Hn _]. apply Hn. now left.
-Qed.
-Print Assumptions C07_one_commit_error_response_refuted.
+Example C07_one_commit_error_response_regression_F3 :
+  script_ok c07_f3 = true /\ commits_ok true (map i_ev c07_f3) = true /\
+  couts (snd (crun c07_first c07_f3)) =
+    [COut "BEGIN" "7" "7-0" 200; COut "INSERT" "7" "7-0" 300; COut "COMMIT" "7" "7-0" 500] /\
+  commit_keys (snd (crun c07_first c07_f3)) = ["7-0"]%string.
+Proof. vm_compute. repeat split. Qed.
+
+(* regression of finding F2: an ErrorResponse inside the very first transaction (no COMMIT
+   received yet, highestWalStart = 0) forwards the closing COMMIT stamped with the session start
+   position 100 (the acknowledged position), not 0; a second ErrorResponse adds nothing *)
+Definition c07_f2 : list citer :=
+  [ c07_it (EXLog 200 (XBegin "7")); c07_it (EXLog 300 (XChange "INSERT"));
+    c07_it (EErrorResponse 900); c07_it (EErrorResponse 950) ].
+
+Example C07_error_response_in_first_transaction_F2 :
+  script_ok c07_f2 = true /\ commits_ok true (map i_ev c07_f2) = true /\
+  couts (snd (crun c07_first c07_f2)) =
+    [COut "BEGIN" "7" "7-0" 200; COut "INSERT" "7" "7-0" 300; COut "COMMIT" "7" "7-0" 100] /\
+  stopped (fst (crun c07_first c07_f2)) = false.
+Proof. vm_compute. repeat split. Qed.
+
+(* what [commits_ok] still excludes: a COMMIT arriving after a recovery without a new BEGIN
+   would be a second COMMIT for the key the recovery closed *)
+Example C07_commit_after_recovery_outside_domain :
+  let its := [ c07_it (EXLog 200 (XBegin "7")); c07_it (EErrorResponse 900); c07_it (EXLog 500 (XCommit "7")) ] in
+  commits_ok true (map i_ev its) = false /\
+  commit_keys (snd (crun c07_first its)) = ["7-0"; "7-0"]%string.
+Proof. vm_compute. split; reflexivity. Qed.
 
 (* ---------------- BEGIN without the previous COMMIT ---------------- *)
 (* ([i_pclosed it = false] says the handleProgress call at the loop head returned no error, see
